@@ -141,7 +141,7 @@ def pair_class(region_a, region_b):
 # operand pairs
 # ----------------------------------------------------------------------------------
 
-KIND_WEIGHTS = "SSSSSSCCDDNUUVEW"
+KIND_WEIGHTS = "SSSSSSCCDDNMUUVEW"
 
 
 def make_pair(rng, curved_prob=0.25, kinds=None, size=10.0):
